@@ -5,6 +5,7 @@ import (
 	"math"
 	"math/big"
 	"reflect"
+	"sort"
 	"strconv"
 	"strings"
 	"time"
@@ -361,6 +362,57 @@ func Match(exp, got interface{}) bool {
 		return true
 	}
 	return LeafEqual(exp, got)
+}
+
+// Mismatch locates the first position where observed differs from expected ("" when they match): a path plus both values.
+func Mismatch(exp, got interface{}) string { return mismatch(exp, got, "$") }
+
+func mismatch(exp, got interface{}, at string) string {
+	switch e := exp.(type) {
+	case map[string]interface{}:
+		g, isMap := got.(map[string]interface{})
+		if !isMap {
+			return fmt.Sprintf("%s: expected an object, observed %s", at, Render(got))
+		}
+		keys := make([]string, 0, len(e))
+		for k := range e {
+			keys = append(keys, k)
+		}
+		sort.Strings(keys)
+		for _, k := range keys {
+			gv, has := g[k]
+			if !has {
+				return fmt.Sprintf("%s: key %q missing", at, k)
+			}
+			if d := mismatch(e[k], gv, at+"."+k); d != "" {
+				return d
+			}
+		}
+		for k := range g {
+			if _, has := e[k]; !has {
+				return fmt.Sprintf("%s: unexpected key %q", at, k)
+			}
+		}
+		return ""
+	case []interface{}:
+		g, isList := got.([]interface{})
+		if !isList {
+			return fmt.Sprintf("%s: expected a list, observed %s", at, Render(got))
+		}
+		if len(g) != len(e) {
+			return fmt.Sprintf("%s: list of %d, expected %d", at, len(g), len(e))
+		}
+		for i := range e {
+			if d := mismatch(e[i], g[i], fmt.Sprintf("%s[%d]", at, i)); d != "" {
+				return d
+			}
+		}
+		return ""
+	}
+	if LeafEqual(exp, got) {
+		return ""
+	}
+	return fmt.Sprintf("%s: expected %s, observed %s", at, Render(exp), Render(got))
 }
 
 // ---------------------------------------------------------------- input
